@@ -354,34 +354,12 @@ func runC17(c *eng.Ctx) {
 		nsInf := p.Field(pkgKem, "monitor", "NamespaceInformer")
 		pause := p.Method(pkgKem, "resourceInformer", "pauseHandleEvents")
 		rangeValue := p.Method(pkgKem, "varyingInformers", "RangeValue")
-		static := false
-		eng.InspectNoLit(f.Decl.Body, func(n ast.Node) bool {
-			if rs, ok := n.(*ast.RangeStmt); ok && eng.IsField(info, rs.X, resInf) && rs.Value != nil {
-				elem := eng.SelObj(info, rs.Value)
-				static = loopNoEarlyExit(g, rs) && loopBodyMustPass(g, rs, func(m *eng.GNode) bool {
-					return len(g.CallsAt(m, func(o types.Object, call *ast.CallExpr) bool {
-						s, isS := ast.Unparen(call.Fun).(*ast.SelectorExpr)
-						return o == pause && isS && eng.SelObj(info, s.X) == elem
-					})) > 0
-				})
-			}
-			return true
-		})
+		_, static := elemLoopCalling(g, info, f.Decl.Body, func(x ast.Expr) bool { return eng.IsField(info, x, resInf) }, pause)
 		varying := false
 		for _, l := range litsPassedTo(f, info, rangeValue) {
+			l := l
 			lg := p.GraphOfLit(l)
-			eng.InspectNoLit(l.Lit.Body, func(n ast.Node) bool {
-				if rs, ok := n.(*ast.RangeStmt); ok && rs.Value != nil {
-					elem := eng.SelObj(info, rs.Value)
-					varying = loopNoEarlyExit(lg, rs) && loopBodyMustPass(lg, rs, func(m *eng.GNode) bool {
-						return len(lg.CallsAt(m, func(o types.Object, call *ast.CallExpr) bool {
-							s, isS := ast.Unparen(call.Fun).(*ast.SelectorExpr)
-							return o == pause && isS && eng.SelObj(info, s.X) == elem
-						})) > 0
-					})
-				}
-				return true
-			})
+			_, varying = elemLoopCalling(lg, info, l.Lit.Body, func(x ast.Expr) bool { return isParamOf(info, l.Lit, x) }, pause)
 			// the sweep itself on every path
 			if n := g.NodeOf(l.ArgOf); n != nil && varying {
 				varying = g.MustPassToExit(eng.Query{FromEntry: true}, func(m *eng.GNode) bool { return m == n }) == nil
